@@ -25,7 +25,7 @@ M_ResultIgnoresExc(j) ==
     /\ act' = L("sub", j, "M_ResultIgnoresExc")
     /\ UNCHANGED <<Rest, wpc, delivered, cpc>>
 
-\* cancel() returns although the process is running                  -> QuiescentUnlessRace
+\* cancel() returns although the process is running                  -> QuiescentUnlessCbp
 M_CancelSkips(j) ==
     /\ cpc[<<"h", j>>] = "poll"
     /\ cpc' = [cpc EXCEPT ![<<"h", j>>] = "done"]
@@ -41,7 +41,7 @@ M_LostResult(j) ==
 
 \* submit() without the flag test                                    -> RejectAfterFlag
 M_NoCheck(j) ==
-    /\ spc[j] = "idle"
+    /\ spc[j] = "locked"
     /\ spc' = [spc EXCEPT ![j] = "checked"]
     /\ act' = L("sub", j, "M_NoCheck")
     /\ UNCHANGED <<Rest, wpc, delivered, seen, cpc>>
